@@ -1,6 +1,7 @@
 """Task runner: one (function, case, mode) per task, 16-process pool."""
 import multiprocessing as mp
 import os
+import re
 import sys
 import time
 import traceback
@@ -65,7 +66,7 @@ def run_task(task):
             import copy as _copy
             case = _copy.copy(case)
             case.requires = list(case.requires) + list(task["extra_requires"])
-        e.verify(task["key"], case)
+        e.verify(task["key"], case, region=task.get("region"))
         out["gen_s"] = time.time() - t0
         for vc in e.vcs:
             r = solve_vc(vc, use_portfolio=task.get("portfolio", "defer"))
@@ -74,8 +75,12 @@ def run_task(task):
                         for k, v in e.stats.items()}
         out["recipe"] = e.param_recipe
         out["contract"] = {
-            "requires": c.requires + list(case.requires),
-            "ensures": case.ensures if case.ensures is not None else c.ensures,
+            "requires": c.requires + list(case.requires) + [
+                rg["when"] if rg["name"] == task.get("region") else "not (%s)" % rg["when"]
+                for rg in c.regions],
+            "ensures": ([r for rg in c.regions if rg["name"] == task.get("region")
+                         for r in rg["ensures"]] if task.get("region") else
+                        (case.ensures if case.ensures is not None else c.ensures)),
             "returns": c.returns if case.ensures is None else None,
             "raises": case.raises if case.raises is not None else c.raises,
             "modifies_self": c.modifies_self}
@@ -87,7 +92,9 @@ def run_task(task):
         try:
             out["recipe"] = e.param_recipe
             out["contract"] = {
-                "requires": c.requires + list(case.requires),
+                "requires": c.requires + list(case.requires) + [
+                rg["when"] if rg["name"] == task.get("region") else "not (%s)" % rg["when"]
+                for rg in c.regions],
                 "ensures": case.ensures if case.ensures is not None else c.ensures,
                 "returns": c.returns if case.ensures is None else None,
                 "raises": case.raises if case.raises is not None else c.raises,
@@ -172,6 +179,10 @@ def tasks_for(keys, modes, contracts_reg):
         for case in contracts_reg[k].cases:
             for m in modes:
                 ts.append({"key": k, "case": case.name, "mode": m})
+                for rg in contracts_reg[k].regions:
+                    if re.fullmatch(rg.get("cases", ".*"), case.name):
+                        ts.append({"key": k, "case": case.name, "mode": m,
+                                   "region": rg["name"]})
     return ts
 
 
